@@ -168,6 +168,11 @@ def run(tier):
         V.case(c, not c["empty"])
         for (what, got, exp) in probs:
             V.violation(f"{PID}|resample|{what}|frames={len(c['frames'])}", {"kind": "resample", "case": c, "message": f"resample_to_common_grid: {what}: {got} vs {exp} for {c['frames']} fs={c['fs']}"})
+    re_ = tlc.run_model("ExactCheck", f"{PID}_exact", constants=dict(Range=16 if tier == "quick" else 24),
+                        invariants=["CmpFracIsCrossMultiplication", "CmpFracScaled", "MulQ20Exact", "MulQ20Close", "RoundingOps", "RationalOps"])
+    if re_.violated:
+        raise tlc.TLCError(f"ExactCheck.tla violates {re_.violated}: an arithmetic helper of the trusted base is wrong")
+    V.model(re_, "ExactCheck.tla: CmpFrac, MulQ20, rounding and rational helpers against their definitions")
     V.sample({"case": cases[0]})
     rc = V.finish(rule="every row of Config.tla's decision table + fixed validation tables")
     # not a listed property: keep its evidence out of /verif/evidence
